@@ -16,7 +16,15 @@ RULE = ("graphs: every isomorphism class of simple graphs with 1..6 vertices "
         "3 random starts, union-find components, vertex/edge set comparison. "
         "A case is non-trivial with >= 2 edges and a labelling different "
         "from the natural one; distinct = hash(graph, ids, edge order, "
-        "names).")
+        "names). Reuse family (every case in quick, every 4th in thorough): "
+        "ONE pair of BeadStructure objects is queried repeatedly "
+        "(isStructureEquivalent both directions and again, isSingleStructure "
+        "and breakIntoStructures in varying order) and modified in between "
+        "(a bead added to one structure only -> different; to both -> "
+        "equivalent; a connection added to one -> verdict of freshly built "
+        "structures; to both -> equivalent), every answer judged by a fresh "
+        "reference; ONE Graph object gets findStructureId twice, a second "
+        "exploration from another start, then reduce/expand and decouple.")
 
 
 def prebuild():
@@ -35,7 +43,9 @@ def run(chk):
     jobs = [lambda s=s: vf.run_proc(
         [h, "--seed", str(chk.seed), "--shard", str(s), "--shards",
          str(shards), "--relabels", str(relabels), "--classes", str(classes),
-         "--random", str(rnd)], env=env, timeout=3000) for s in range(shards)]
+         "--random", str(rnd), "--reuse-every",
+         str(vf.tier_n(chk.tier, 1, 4))], env=env, timeout=3000)
+        for s in range(shards)]
     for s, res in enumerate(vf.run_parallel(jobs)):
         if not chk.ingest(res, "c16 shard %d" % s):
             chk.sanitizer["reports"] += 0 if res.rc == 0 else 1
@@ -53,7 +63,11 @@ def run(chk):
         "network); the empty structure is not generated",
         "graphs handed to exploreGraph / decouple / reduce come from a fresh "
         "BeadStructure (isStructureEquivalent leaves its distance labels in "
-        "the cached graph, which is not part of the statement)"]
+        "the cached graph, which is not part of the statement)",
+        "reuse: distance labels that a previous exploration left on "
+        "vertices the current start cannot reach, and a different second "
+        "findStructureId on a disconnected Graph object, are observation "
+        "counters (the statement speaks about reachable vertices only)"]
 
 
 def replay(path):
